@@ -198,7 +198,7 @@ def execute(scn: dict) -> dict:
 
     # "exactly as if absent" (metamorphic): a realization that failed for the gradient only because too few of
     # its perturbations succeeded must influence the gradient no more than one that fails completely
-    if partial_failed and not oracles.has_filters(cfg0) and not any(e[0] == "exception" for e in ctx.exits):
+    if partial_failed and not any(e[0] == "exception" for e in ctx.exits):
         import copy as _copy
         twin = _copy.deepcopy(scn)
         for r in sorted(partial_failed):
@@ -218,7 +218,7 @@ def execute(scn: dict) -> dict:
             y = np.asarray(b.opt.gradients.objectives, float)
             if not np.allclose(x, y, rtol=1e-9, atol=1e-12, equal_nan=True):
                 viol.append({"clause": "partially-failed-realization-influences-gradient",
-                             "sig": {"merged": bool(cfg0.get("gradient", {}).get("merge_realizations"))},
+                             "sig": {"merged": bool(cfg0.get("gradient", {}).get("merge_realizations")), "filters": oracles.has_filters(cfg0)},
                              "detail": f"eval {a.call.k if a.call else '?'}: objective gradients {x.tolist()} with realization(s) {sorted(partial_failed)} failing through "
                                        f"perturbation_min_success, {y.tolist()} when the same realization(s) fail completely"})
                 break
